@@ -181,8 +181,12 @@ impl Sys {
                                 if inv.inventory.iter().any(|r| *r == self.rid) {
                                     labels.push("inventory-lists-repo".into());
                                     if self.vis != Vis::Public {
+                                        // Was the repository already private when the node (re)started, or
+                                        // did it become private while the node was running?
+                                        let origin = if self.vis_at_init == Vis::Public { "made-private-while-running" } else { "private-since-start" };
+                                        let _ = phase;
                                         vs.push(Violation::new(
-                                            format!("C11/private-in-inventory/{phase}"),
+                                            format!("C11/private-in-inventory/{origin}"),
                                             format!("the node's inventory announcement (t={}) lists the repository while it is {:?}; written to {} during {phase}", *inv.timestamp, self.vis, self.peers[pi].name),
                                             json!({}),
                                         ));
